@@ -95,6 +95,108 @@ func (p *Program) connLoops() []*ConnLoop {
 // WriteString / ReadFrom through net.Conn, io.Writer, *tls.Conn, *redis.Conn, or io.Copy* /
 // io.WriteString / fmt.Fprint* whose destination is such a value.
 func isConnWriteCall(cc *ssa.CallCommon) bool {
+	if passThroughForward[cc] {
+		return false // the forwarding call inside a transparent Write wrapper: the wrapper's callers are the write sites
+	}
+	return isConnWriteCallRaw(cc)
+}
+
+// passThroughForward: the one forwarding call inside a transparent transport wrapper
+//
+//	func (c *Conn) Write(b []byte) (int, error) { n, err := c.Conn.Write(b); <count n>; return n, err }
+//
+// The wrapper adds nothing to the byte stream; whoever calls it is the write site.
+var passThroughForward = map[*ssa.CallCommon]bool{}
+
+func computePassThroughWriters(p *Program) {
+	passThroughForward = map[*ssa.CallCommon]bool{}
+	for _, fn := range p.RepoFuncs(modPath) {
+		if !inProd(fn) || fn.Blocks == nil || fn.Signature.Recv() == nil || fn.Name() != "Write" || len(fn.Params) != 2 {
+			continue
+		}
+		if !isConnLikeType(fn.Params[0].Type()) || !isByteSlice(fn.Params[1].Type()) {
+			continue
+		}
+		res := fn.Signature.Results()
+		if res.Len() != 2 || !isErrorType(res.At(1).Type()) {
+			continue
+		}
+		var fwd *ssa.Call
+		pure := true
+		allInstrs(fn, func(ins ssa.Instruction) {
+			switch x := ins.(type) {
+			case *ssa.Call:
+				cc := x.Common()
+				if _, isB := cc.Value.(*ssa.Builtin); isB {
+					return
+				}
+				if isConnWriteCallRaw(cc) {
+					if fwd != nil {
+						pure = false
+					}
+					fwd = x
+					return
+				}
+				if n := calleeName(cc); strings.HasPrefix(n, "(*sync/atomic.") || strings.HasPrefix(n, "sync/atomic.") {
+					return
+				}
+				pure = false
+			case *ssa.Defer, *ssa.Go, *ssa.Send, *ssa.MapUpdate, *ssa.Panic, *ssa.Store:
+				pure = false
+			}
+		})
+		if fwd == nil || !pure {
+			continue
+		}
+		cc := fwd.Common()
+		// forwards its own parameter to the connection embedded in its receiver
+		args := cc.Args
+		recv := cc.Value
+		if !cc.IsInvoke() && len(cc.Args) > 0 {
+			recv, args = cc.Args[0], cc.Args[1:]
+		}
+		if len(args) != 1 || strip(args[0]) != ssa.Value(fn.Params[1]) {
+			continue
+		}
+		if connObjectOf(recv) != ssa.Value(fn.Params[0]) {
+			continue
+		}
+		ok := true
+		for _, r := range returnsOf(fn) {
+			ex0, is0 := strip(retOperand(r, 0)).(*ssa.Extract)
+			ex1, is1 := strip(retOperand(r, 1)).(*ssa.Extract)
+			if !is0 || !is1 || ex0.Tuple != ssa.Value(fwd) || ex1.Tuple != ssa.Value(fwd) || ex0.Index != 0 || ex1.Index != 1 {
+				ok = false
+			}
+		}
+		if ok {
+			passThroughForward[cc] = true
+		}
+	}
+}
+
+// connObjectOf: the wrapper object behind a load of its embedded field.
+func connObjectOf(v ssa.Value) ssa.Value {
+	v = strip(v)
+	for d := 0; d < 3; d++ {
+		ld, ok := v.(*ssa.UnOp)
+		if !ok || ld.Op != token.MUL {
+			break
+		}
+		fa, ok := ld.X.(*ssa.FieldAddr)
+		if !ok {
+			break
+		}
+		st := derefStruct(fa.X.Type())
+		if st == nil || !st.Field(fa.Field).Embedded() {
+			break
+		}
+		v = strip(fa.X)
+	}
+	return v
+}
+
+func isConnWriteCallRaw(cc *ssa.CallCommon) bool {
 	n := calleeName(cc)
 	switch n {
 	case "(net.Conn).Write", "(io.Writer).Write", "(*crypto/tls.Conn).Write", "(io.StringWriter).WriteString",
